@@ -45,7 +45,7 @@ KERNELS = {
 NAT_KERNELS = {"_check_regular_chunks", "to_chunksize"}
 
 GEN_HEADER = r"""
-From CubedV Require Import Model.Util Model.Memory Model.Rechunk Model.Regular Model.Dag Model.FuseGuard Model.Admission Model.Resume Model.Events Model.SpecCfg Model.Geometry Proofs.GeometryProofs Proofs.SpecCfgProofs Proofs.FuseGuardProofs Proofs.AdmissionProofs Proofs.ResumeProofs Proofs.EventsProofs.
+From CubedV Require Import Model.Util Model.Memory Model.Rechunk Model.Regular Model.Dag Model.FuseGuard Model.Admission Model.Resume Model.Events Model.SpecCfg Model.Geometry Model.StoreRegion Model.StoreGuard Proofs.StoreGuardProofs Proofs.GeometryProofs Proofs.SpecCfgProofs Proofs.FuseGuardProofs Proofs.AdmissionProofs Proofs.ResumeProofs Proofs.EventsProofs.
 From Gen Require Import Gen.
 Local Open Scope Z_scope.
 
@@ -155,7 +155,8 @@ FUSE_FIELDS = ["projected_mem", "allowed_mem", "reserved_mem", "num_tasks"]
 ADMISSION_KERNELS = ["Plan._find_ops_exceeding_memory", "FinalizedPlan.validate", "admission.wiring", "already_computed", "resume.wiring",
                      "skip_node", "visit_nodes", "visit_node_generations",
                      "Spec.__eq__", "check_array_specs",
-                     "_cumsum", "get_item", "ChunkKeys.__iter__", "general_blockwise.num_tasks"]
+                     "_cumsum", "get_item", "ChunkKeys.__iter__", "general_blockwise.num_tasks",
+                     "_store_array.region_guards"]
 
 EQUIV.update({
     "is_fuse_candidate": r"""
@@ -289,6 +290,17 @@ Corollary source_num_tasks_is_mappable_length : forall chunks,
 Proof.
   intros. rewrite gen_ChunkKeys_iter_equiv, gen_general_blockwise_num_tasks_equiv. split; [apply mappable_length|apply blocks_nodup].
 Qed.
+""",
+    "_store_array.region_guards": r"""
+Theorem gen_region_misaligned_equiv : forall start stop cs shape_i, gen_region_misaligned start stop cs shape_i = misalignedZ start stop cs shape_i.
+Proof. intros. reflexivity. Qed.
+Theorem gen_region_chunks_mismatch_equiv : forall n sc tc nb, gen_region_chunks_mismatch n sc tc nb = chunks_mismatchZ n sc tc nb.
+Proof. intros. reflexivity. Qed.
+(* the two refusals of the source are exactly the negations of Model.StoreRegion.aligned / chunks_ok *)
+Corollary source_region_guards_are_model_guards : forall a : raxis,
+  gen_region_misaligned (Z.of_nat (rstart a)) (Z.of_nat (rstop a)) (Z.of_nat (StoreRegion.tc a)) (Z.of_nat (tn a)) = negb (aligned a) /\
+  gen_region_chunks_mismatch (Z.of_nat (sn a)) (Z.of_nat (StoreRegion.sc a)) (Z.of_nat (StoreRegion.tc a)) (Z.of_nat (nblocks (sn a) (StoreRegion.sc a))) = negb (chunks_ok a).
+Proof. intros. rewrite gen_region_misaligned_equiv, gen_region_chunks_mismatch_equiv. split; [apply misalignedZ_view|apply chunks_mismatchZ_view]. Qed.
 """,
     "skip_node": r"""
 Theorem gen_skip_node_spec : forall hp c, gen_skip_node hp c = negb hp || c.
@@ -655,6 +667,47 @@ def translate_admission(name, repo):
         if not ex or U(ex[0]) != "self.validate()":
             raise TranslationError("FinalizedPlan.execute must call self.validate() first")
         return "(* admission.wiring: structural obligations on _finalize / FinalizedPlan.__init__ / execute hold *)\n"
+    if name == "_store_array.region_guards":
+        otree = ast.parse((Path(repo) / "cubed/core/ops.py").read_text())
+        fn = next((n for n in otree.body if isinstance(n, ast.FunctionDef) and n.name == "_store_array"), None)
+        if fn is None:
+            raise TranslationError("_store_array not found")
+
+        def raising(msg):
+            hits = [n for n in ast.walk(fn) if isinstance(n, ast.If) and not n.orelse and len(n.body) == 1 and isinstance(n.body[0], ast.Raise)
+                    and n.body[0].exc is not None and U(n.body[0].exc).startswith("ValueError(") and msg in U(n.body[0].exc)]
+            if len(hits) != 1:
+                raise TranslationError(f"_store_array: expected exactly one refusal with message containing {msg!r}")
+            return hits[0]
+
+        al = raising("does not align with target chunks")
+        loops = [n for n in ast.walk(fn) if isinstance(n, ast.For) and al in n.body]
+        if len(loops) != 1 or U(loops[0].target) != "(i, (sl, cs))" or U(loops[0].iter) != "enumerate(zip(region, chunks))" or len(loops[0].body) != 1:
+            raise TranslationError("_store_array: the alignment refusal must be the body of `for i, (sl, cs) in enumerate(zip(region, chunks))`")
+        # region slices are resolved (None start = 0, None stop = axis length): for those values the `is not None` guards change nothing
+        # (0 % cs == 0; shape % cs != 0 and shape != shape is false), so `x is not None` is rendered as true
+        class TrReg(Tr):
+            def expr(self, e):
+                if isinstance(e, ast.Compare) and len(e.ops) == 1 and isinstance(e.ops[0], ast.IsNot) and isinstance(e.comparators[0], ast.Constant) and e.comparators[0].value is None \
+                        and U(e.left) in ("sl.start", "sl.stop"):
+                    return "true"
+                if isinstance(e, ast.Subscript) and U(e) == "shape[i]":
+                    return "shape_i"
+                return super().expr(e)
+        t1 = TrReg([("sl", {"start": "Z", "stop": "Z"})]).expr(al.test)
+        ch = raising("do not match target chunks")
+        t = ch.test
+        if not (isinstance(t, ast.Call) and U(t.func) == "any" and len(t.args) == 1 and isinstance(t.args[0], ast.GeneratorExp) and len(t.args[0].generators) == 1
+                and not t.args[0].generators[0].ifs and U(t.args[0].generators[0].target) == "(n, sc, tc, nb)"
+                and U(t.args[0].generators[0].iter) == "zip(source.shape, source.chunksize, chunks, source.numblocks)"):
+            raise TranslationError("_store_array: the chunk refusal must be any(<test> for n, sc, tc, nb in zip(source.shape, source.chunksize, chunks, source.numblocks))")
+        t2 = Tr([]).expr(t.args[0].elt)
+        # both refusals precede the construction of the copy operation
+        order = [n.lineno for n in (al, ch)] + [n.lineno for n in ast.walk(fn) if isinstance(n, ast.Call) and U(n.func) in ("general_blockwise", "_general_blockwise") and n.lineno > al.lineno]
+        if not order[2:] or min(order[2:]) < max(order[:2]):
+            raise TranslationError("_store_array: the refusals must precede the construction of the region copy operation")
+        return (f"Definition gen_region_misaligned (sl_start sl_stop cs shape_i : Z) : bool := ({t1})%Z.\n"
+                f"Definition gen_region_chunks_mismatch (n sc tc nb : Z) : bool := ({t2})%Z.\n")
     if name in ("_cumsum", "get_item"):
         utree = ast.parse((Path(repo) / "cubed/utils.py").read_text())
         fn = next((n for n in utree.body if isinstance(n, ast.FunctionDef) and n.name == name), None)
@@ -1116,7 +1169,7 @@ def check(names=None, repo=None, tag="all"):
     except Exception as e:
         return False, f"translation failed: {type(e).__name__}: {e}", ""
     text = ("(* GENERATED on every run from /repo by harness/translate.py - do not edit *)\n"
-            "From CubedV Require Import Model.Util Model.Memory Model.Rechunk Model.Regular Model.Dag Model.FuseGuard Model.Admission Model.Resume Model.SpecCfg Model.Geometry.\nLocal Open Scope Z_scope.\n\n" + "\n".join(defs))
+            "From CubedV Require Import Model.Util Model.Memory Model.Rechunk Model.Regular Model.Dag Model.FuseGuard Model.Admission Model.Resume Model.SpecCfg Model.Geometry Model.StoreGuard.\nLocal Open Scope Z_scope.\n\n" + "\n".join(defs))
     (gen / "Gen.v").write_text(text)
     (gen / "GenEquiv.v").write_text(GEN_HEADER + "".join(EQUIV[n] for n in order))
     for f in ("Gen.v", "GenEquiv.v"):
